@@ -8,6 +8,9 @@
    [enc] = json.Marshal, [dec] = json.Unmarshal into a fresh zero value, [canon] = the value
    one gets back.  Definitions only; the round-trip theorems live in Proofs/TopoJson.v. *)
 From RP Require Import Lib.Base Lib.Sexp Lib.Strings.
+From Coq Require Import String.
+Local Open Scope string_scope.
+Open Scope Z_scope.
 
 (* per-field facts, exactly what gen/ reads off the struct declaration *)
 Record finfo : Type := FI {
@@ -375,4 +378,57 @@ Fixpoint field_by_name (n : list Z) (fs : list (finfo * ty)) (l : list val) : op
   match fs, l with
   | (i, ft) :: fs', x :: l' => if bytes_eqb (goname i) n then Some (ft, x) else field_by_name n fs' l'
   | _, _ => None
+  end.
+
+(* ---- wire format of generic values (printed by the Go harness by reflection) ----
+   int kinds, bool (0/1) and float bit patterns: integers; strings: #hex; opaque: symbol o;
+   nil pointer/slice/map: symbol nil; pointer: (p v); slice: (v1 v2 ...); map: ((k v) ...);
+   struct: (f1 f2 ...) one entry per Go field in declaration order. *)
+Fixpoint val_of_sexp (t : ty) (s : sexp) {struct t} : option val :=
+  match t with
+  | TInt _ _ => match s with I z => Some (VInt z) | _ => None end
+  | TBool => match s with I z => Some (VBool (negb (z =? 0))) | _ => None end
+  | TStr => match s with B b => Some (VStr b) | _ => None end
+  | TFloat _ => match s with I z => Some (VFloat z) | _ => None end
+  | TOpaque _ | TUnsupported _ => match s with S _ => Some VOpaque | _ => None end
+  | TPtr t' =>
+    match s with
+    | S _ => Some VNil
+    | L [S _; x] => match val_of_sexp t' x with Some v => Some (VPtr v) | None => None end
+    | _ => None
+    end
+  | TSlice t' =>
+    match s with
+    | S _ => Some VNil
+    | L xs => match omapM (val_of_sexp t') xs with Some vs => Some (VSlice vs) | None => None end
+    | _ => None
+    end
+  | TMap _ _ t' =>
+    match s with
+    | S _ => Some VNil
+    | L xs =>
+      match omapM (fun e => match e with
+                            | L [I k; x] => match val_of_sexp t' x with Some v => Some (k, v) | None => None end
+                            | _ => None
+                            end) xs with
+      | Some es => Some (VMap es)
+      | None => None
+      end
+    | _ => None
+    end
+  | TStruct _ fs =>
+    match s with
+    | L xs =>
+      match (fix go (fs : list (finfo * ty)) (xs : list sexp) {struct fs} : option (list val) :=
+               match fs, xs with
+               | [], [] => Some []
+               | (_, ft) :: fs', x :: xs' =>
+                 match val_of_sexp ft x, go fs' xs' with Some v, Some vs => Some (v :: vs) | _, _ => None end
+               | _, _ => None
+               end) fs xs with
+      | Some vs => Some (VStruct vs)
+      | None => None
+      end
+    | _ => None
+    end
   end.
